@@ -156,3 +156,78 @@ def oracle_from_cfg(cfg, R):
     reach = an["reach"]
     useful = [(w, h, b) for (w, h, b) in rules if h in reach and all(y in V or y in reach for y in b)]
     return cfgref.generic_oracle(useful, S, V, Rcls.zero, Rcls.one)
+
+
+# ---------------------------------------------------------------------------
+# automata
+def build_wfsa(m, R, cls=None):
+    "library automaton for case m over semiring named R (base.WFSA unless cls given)"
+    from genlm.grammar.wfsa import base
+
+    cls = cls or base.WFSA
+    Rcls = SR.BY_NAME[R]
+    A = cls(Rcls)
+    names = m["names"]
+    for q in names:
+        A.add_state(q)
+    for i, w in m["start"]:
+        A.add_I(names[i], lib_weight(R, w, 0))
+    for i, w in m["stop"]:
+        A.add_F(names[i], lib_weight(R, w, 0))
+    for idx, (i, a, j, w) in enumerate(m["arcs"]):
+        A.add_arc(names[i], a, names[j], lib_weight(R, w, idx))
+    return A
+
+
+def _conv_for(R):
+    if R in FIELD:
+        return (lambda w: Fr(w)), Fr(0), Fr(1), False
+    if R == "Boolean":
+        return (lambda w: cfgref.BoolV(w != 0)), cfgref.BoolV(False), cfgref.BoolV(True), True
+    if R == "MaxTimes":
+        return (lambda w: cfgref.MaxTimesV(float(w))), cfgref.MaxTimesV(0), cfgref.MaxTimesV(1), True
+    raise KeyError(R)
+
+
+def dense_from_case(m, R):
+    from rv.ref import fsaref
+
+    conv, zero, one, idem = _conv_for(R)
+    n = m["n"]
+    start = [zero] * n
+    stop = [zero] * n
+    for i, w in m["start"]:
+        start[i] = start[i] + conv(w)
+    for i, w in m["stop"]:
+        stop[i] = stop[i] + conv(w)
+    arcs = [(i, a, j, conv(w)) for i, a, j, w in m["arcs"]]
+    return fsaref.Dense(n, start, stop, arcs, zero, one, idem)
+
+
+def dense_from_wfsa(A, R, exact_floats=True):
+    """Dense reference view of a *library* automaton (reads states/start/stop/arcs only).
+    Field weights become Fractions (floats are converted exactly)."""
+    from rv.ref import fsaref
+
+    if R in FIELD:
+        def conv(w):
+            v = have_value(R, w)
+            return Fr(v)
+        zero, one, idem = Fr(0), Fr(1), False
+    elif R == "Boolean":
+        conv, zero, one, idem = (lambda w: cfgref.BoolV(bool(w.score))), cfgref.BoolV(False), cfgref.BoolV(True), True
+    elif R == "MaxTimes":
+        conv, zero, one, idem = (lambda w: cfgref.MaxTimesV(w.score)), cfgref.MaxTimesV(0), cfgref.MaxTimesV(1), True
+    else:
+        raise KeyError(R)
+    states = sorted(A.states, key=repr)
+    ix = {s: i for i, s in enumerate(states)}
+    n = len(states)
+    start = [zero] * n
+    stop = [zero] * n
+    for q, w in A.start.items():
+        start[ix[q]] = start[ix[q]] + conv(w)
+    for q, w in A.stop.items():
+        stop[ix[q]] = stop[ix[q]] + conv(w)
+    arcs = [(ix[i], a, ix[j], conv(w)) for i, a, j, w in A.arcs()]
+    return fsaref.Dense(n, start, stop, arcs, zero, one, idem)
